@@ -319,3 +319,13 @@ def shrink_candidates(c):
         if r[i] != 'same' and len(r[i]) > 1:
             for j in range(len(r[i])):
                 d = dict(c); d['records'] = r[:i] + [r[i][:j] + r[i][j + 1:]] + r[i + 1:]; yield d
+
+# ---- enc tie: the Coq encoder of the theorems (Proofs/VwscFacts.v enc_inner / enc_rec) on the same record lists
+ENC_TIE_IMPORTS = ['Proofs.VwscFacts']
+def enc_tie_term(c):
+    from framework import cz, cbytes, clist
+    if c.get('kind') != 'score':
+        return None
+    recs = clist(['RSame' if r == 'same' else 'RDelta %s' % clist(['(%s, %s)' % (cz(o), cbytes(d)) for o, d in r]) for r in c['records']])
+    t = 'enc_inner %s %s %s %s %s %s' % (cz(c['fs']), cz(c['cc']), cz(len(c['records'])), cz(c['unk'][0]), cz(c['unk'][1]), recs)
+    return t, enc_score(dict(c, wrapped=False, tail=b''))
